@@ -623,7 +623,12 @@ SPEC = Spec(
         "the order string reshape() stores is the one its check validated "
         "(normalised), and the values lowering distinguishes are the admitted "
         "ones. R02-SIBLING: the three index-lowering rules handle integer and "
-        "slice indices identically (sibling cross-check). "
+        "slice indices identically: what one iteration of the per-index loop does for an "
+        "integer index and for a slice (subscript appended, bindings stored, output-axis "
+        "counter advanced, per truth value of the tests on the index and its axis length) "
+        "is tabulated by case-split evaluation and the three tables are compared; the "
+        "two advanced-index lowerings find the advanced indices and their broadcast shape "
+        "alike. "
         "R02-BIND also: concatenate offsets are taken from the list of upper bounds (running sum), the upper bounds accumulate; in the einsum lowering, on every path through the per-axis loop the broadcast test (operand length vs. the einsum's length for the descriptor) is evaluated before the descriptor kind is tested, before an index variable is appended and before a binding or reduction bound is recorded, and the arm that appends subscript 0 does nothing else (path events, not statement positions). R02-DOMAIN also: a group of axes reshaped onto itself passes its index variables through at any rank."),
     not_decided=(
         "The index arithmetic itself (slice normalisation, reshape stride/modulo, "
